@@ -379,6 +379,10 @@ func checkC04(p *core.Program, r *core.Report) {
 	if nset == 0 {
 		r.Fail(R5, "state setter", "", "no function stores the handshake state from a parameter")
 	}
+	// R8 (kept last: C14 imports C04.R3 in turn)
+	const R8 = "C04.R8 no-stale-timeout-after-the-end"
+	r.Rule(R8, "a timer that was stopped or replaced cannot fire and an expiring timer touches the bookkeeping only as the armed one (shared with C14.R1/R2/R3): otherwise a replaced timer un-registers its successor, which then survives every later stop - the terminal state is reached with a timer armed that nothing can cancel")
+	importRules(p, r, "C14", map[string]string{"C14.R1 per-arm-token": R8, "C14.R2 non-lossy-stop": R8, "C14.R3 fire-revalidation": R8}, nil)
 }
 
 func sortedKeys[T any](m map[string]T) []string {
